@@ -226,12 +226,12 @@ func mirrorCheck(ttl int64, evs []event, needAcq bool) (int, int, string) {
 		if e.kind == kDie {
 			dead = true
 		}
-		if e.kind == kContTry && e.rk == "created" && dead {
+		if e.kind == kContTry && e.rk == "created" && dead && e.n == 2 {
 			acq = true
 		}
 	}
 	if needAcq && !acq {
-		return len(evs), 5, "the holder died but no contender acquired the lock afterwards"
+		return len(evs), 5, "the holder died but the contender parked in LockWithCtx did not acquire the lock afterwards (waited TTL + 3 s)"
 	}
 	return -1, 0, ""
 }
